@@ -309,7 +309,7 @@ pub fn sample_of(t: &Trace) -> Value {
     let evs: Vec<String> = t.events.iter().take(16).map(|e| format!("{:?}", e)).collect();
     let tb = |t: &tape::TapeSpec| match t {
         tape::TapeSpec::Explicit(v) => json!({"explicit_len": v.len()}),
-        tape::TapeSpec::Gen { family, len, scale_exp, .. } => json!({"family": tape::FAMILY_NAMES[*family as usize % 14], "len": len, "scale_exp": scale_exp}),
+        tape::TapeSpec::Gen { family, len, scale_exp, .. } => json!({"family": tape::FAMILY_NAMES[*family as usize % tape::FAMILY_NAMES.len()], "len": len, "scale_exp": scale_exp}),
     };
     json!({
         "config": t.config, "machine": t.machine, "run_index": t.run_index,
@@ -627,16 +627,22 @@ fn run_c09(ctx: &Ctx) -> i32 {
     } else {
         Batch::default()
     };
+    // histories in which a call is refused (a non-positive record offered to Geometric / Harmonic):
+    // the refused call delivers nothing, so the state must equal the one that received exactly the
+    // accepted records. Only that clause is C09's; which error comes back is C05's business.
+    let n_rej = if thorough { 200_000 } else { 4_000 };
+    let mut b5 = if b1.violations.is_empty() && b2.violations.is_empty() { fault_batch("C09", &C05_MACHINES, n_rej, faulty::Mode::NonPositive, ctx.seed ^ 0x99, "histories containing refused deliveries (state = batch over the accepted records)") } else { Batch::default() };
+    b5.violations.retain(|_, (_, _, v)| v.property == "C09");
     let rule = "one evaluation = one seeded API-call program over {new/default, append, extend (Vec/VecDeque/LinkedList/Option/array), from_iter, copy/clone, +, +=, inherent add, merge with empty, query} delivering a multiset to one of 12 machine kinds, compared with the batch computation of the same multiset; distinct = distinct event-shape sequences (data erased); non-trivial = at least one merge and two non-empty deliveries";
     let assumptions = ["tolerances are first-order rounding bounds with K = 8, c_v = 40 (DESIGN 5.3); below the conditioning threshold only count and mean are compared", "exact reference = sim/src/exact.rs"];
-    let firsts: Vec<&(u64, Art, Violation)> = [&b1, &b2, &b3, &b4].iter().filter_map(|b| b.first_violation()).collect();
+    let firsts: Vec<&(u64, Art, Violation)> = [&b1, &b2, &b3, &b4, &b5].iter().filter_map(|b| b.first_violation()).collect();
     let mut new = 0;
     if let Some((_, a, v)) = firsts.first() {
         if report(ctx, a, v) {
             new = 1;
         }
     }
-    write_partial(ctx, "exploration", &[&b1, &b2, &b3, &b4], new, rule, &assumptions, json!({"merge_tree_schedules": n_sched, "data_sets_per_schedule": n_data}), Some("oriented binary merge trees over 2..5 labelled chunks (2+12+120+1680) x {plain, empty chunk at each leaf, empty operand after each node}: every schedule enumerated (data, chunk sizes, styles and operators are seeded)"));
+    write_partial(ctx, "exploration", &[&b1, &b2, &b3, &b4, &b5], new, rule, &assumptions, json!({"merge_tree_schedules": n_sched, "data_sets_per_schedule": n_data}), Some("oriented binary merge trees over 2..5 labelled chunks (2+12+120+1680) x {plain, empty chunk at each leaf, empty operand after each node}: every schedule enumerated (data, chunk sizes, styles and operators are seeded)"));
     if new > 0 {
         1
     } else {
